@@ -278,62 +278,114 @@ def _check(ctx, prog):
             name = strip_generics(h.call_name(s.term))
             if name.startswith("libp2p_request_response::"):
                 helpers.add((side, name))
+    lookups = {}
     for side, name in sorted(helpers):
         b = ctx.body(RR, "^" + re.escape(name) + "$")
         BN = P.Norm(b)
-        # helper(self, peer = $2, connection_id = $3, request = $4): the set of the connection selected by (peer, connection) loses `request`; false when the connection is unknown
+        short = name.split("::")[-1]
+        # helper(self, peer = $2, connection_id = $3, request = $4): value flow, independent of the spelling
+        # (`lookup.map(|c| c.set.remove(&request)).unwrap_or(false)` or `match lookup { Some(c) => c.set.remove(&request), None => false }`):
+        # the result is the HashSet::remove report of the right set of the looked-up connection, and false when there is none
+        look = [(s_, cb) for s_, cb in P.crate_callees(prog, b)] or []
+        lk = [s_ for s_ in b.call_sites() if "$2" in BN.site(s_) and "$3" in BN.site(s_) and not P.call_is(b.site_expr(s_), r"Option::(map|and_then|unwrap_or)")]
+        ok_l = len(lk) >= 1
+        for s_, cb in look:
+            if lk and s_.bb == lk[0].bb:
+                lookups[cb.npath] = cb
         rs = P.ret_exprs(b)
-        r = BN.r(rs[0][1]) if len(rs) == 1 else ""
-        ok = re.match(r"^std::option::Option::unwrap_or\(std::option::Option::map\(libp2p_request_response::Behaviour::get_connection_mut\(self, \$2, \$3\), closure\[\$4\]\), 0\)$", r) is not None
-        ctx.ob("helper", "%s = get_connection_mut(..).map(remove).unwrap_or(false)" % name.split("::")[-1], ok, "%s:%d" % (b.file, b.line), r[:200])
-        cs = P.closures_in(prog, b, rs[0][1]) if rs else []
-        txt = [P.Norm(c).r(x) for _, c in cs[:1] for _, x in P.ret_exprs(c)]
-        ctx.ob("helper", "%s removes from the pending %s set" % (name.split("::")[-1], side), txt == ["std::collections::HashSet::remove($2.%s, ^0)" % SETS[side]], "%s:%d" % (b.file, b.line), str(txt))
+        flow = False
+        detail = ""
+        rm_sites = []
+        for c_ in [b] + _descendants(prog, b):
+            for x in c_.call_sites(r"HashSet::(remove|take)$"):
+                a = c_.site_expr(x)[2]
+                if a[0][0] == "field" and a[0][2] == SETS[side]:
+                    rm_sites.append((c_, x, P.rr(prog, c_, a[1])))
+        key_ok = len(rm_sites) == 1 and rm_sites[0][2] == "$4"
+        if len(rm_sites) == 1 and ok_l:
+            rb, rx, _ = rm_sites[0]
+            if rb is b:
+                # match form: `_0` is the remove report on the found edge, a constant false elsewhere
+                found = P.outcome_edges(b, P.is_call_at(lk[0]), True)
+                vals = [(s_, e) for s_, e in rs]
+                rep = [s_ for s_, e in vals if e[0] == "call" and e[3] == rx.bb]
+                fl = [s_ for s_, e in vals if P.const_val(e) == 0]
+                flow = len(rep) == 1 and len(rep) + len(fl) == len(vals) and len(fl) >= 1 and P.must_pass(b, rep[0].bb, found) and \
+                    all(not P.must_pass(b, f.bb, found) for f in fl)
+                detail = "match form: report on the Some edge, false otherwise"
+            else:
+                # combinator form: unwrap_or(map(lookup, |c| c.set.remove(..)), false)
+                e = rs[0][1] if len(rs) == 1 else ("unknown", "?")
+                flow = P.call_is(e, r"Option::unwrap_or$") and P.const_val(e[2][1]) == 0 and P.call_is(e[2][0], r"Option::map$") and e[2][0][2][0][0] == "call" and e[2][0][2][0][3] == lk[0].bb and \
+                    [P.Norm(rb).r(x) for _, x in P.ret_exprs(rb)] == [P.Norm(rb).site(rx)]
+                detail = "combinator form: lookup.map(remove).unwrap_or(false)"
+        ctx.ob("helper", "%s returns the removal report of the looked-up connection, false if there is none" % short, flow, "%s:%d" % (b.file, b.line), detail or BN.r(rs[0][1])[:160] if rs else "")
+        ctx.ob("helper", "%s removes the given request id from the pending %s set" % (short, side), key_ok, "%s:%d" % (b.file, b.line), str([(x[1].loc(), x[2]) for x in rm_sites]))
     ctx.ob("helper", "floor:removal helpers", len(helpers) in (0, 2), nontrivial=False, msg=str(sorted(helpers)))
-    g = ctx.body(RR, r"^libp2p_request_response::Behaviour::get_connection_mut$")
-    txt = []
-    eqs = set()
-    for c in [g] + _descendants(prog, g):
-        CN = P.Norm(c)
-        for s in c.call_sites():
-            txt.append(CN.site(s))
-        for _, x in P.ret_exprs(c):
-            cm = P.cmpnf(x)
-            if cm and cm[0] == "Eq":
-                eqs.add(tuple(sorted([P.rr(prog, c, cm[1]), P.rr(prog, c, cm[2])])))
-    ctx.ob("helper", "get_connection_mut selects by peer and connection id", any(t_ == "std::collections::HashMap::get_mut(%s, $2)" % CONNECTED for t_ in txt) and
-           ("$2.%s" % C_ID, "$3") in eqs and any("Iterator>::find(" in t_ or "Iterator::find(" in t_ for t_ in txt), "%s:%d" % (g.file, g.line), str(sorted(eqs)))
+    for gname, g in sorted(lookups.items()):
+        txt = []
+        eqs = set()
+        for c in [g] + _descendants(prog, g):
+            CN_ = P.Norm(c)
+            for s in c.call_sites():
+                txt.append(CN_.site(s))
+            for _, x in P.ret_exprs(c):
+                cm = P.cmpnf(x)
+                if cm and cm[0] == "Eq":
+                    eqs.add(tuple(sorted([P.rr(prog, c, cm[1]), P.rr(prog, c, cm[2])])))
+        ctx.ob("helper", "the connection lookup selects by peer and connection id", any(t_ == "std::collections::HashMap::get_mut(%s, $2)" % CONNECTED for t_ in txt) and
+               ("$2.%s" % C_ID, "$3") in eqs, "%s:%d" % (g.file, g.line), str(sorted(eqs)))
+    ctx.ob("helper", "floor:connection lookup", len(lookups) <= 1 and (len(lookups) == 1 or not helpers), nontrivial=False, msg=str(sorted(lookups)))
 
     # ================================================================= on_connection_closed(self, closed = $2)
-    c = ctx.body(RR, r"^libp2p_request_response::Behaviour::on_connection_closed$")
+    osw = ctx.body(RR, r"<Behaviour as libp2p_swarm::NetworkBehaviour>::on_swarm_event$")
+    is_ev = (lambda e: e[0] == "arg" and e[1] == 2)
+    c = ctx.use(P.fn_in_arm(prog, osw, is_ev, "ConnectionClosed"))
     CN = P.Norm(c)
     crets = c.return_blocks()
-    cp = queue_pushes(c, CN, Q)
-    ctx.floor("closed", "outcome pushes in on_connection_closed", cp, 2, exact=True)
-    for side, want in (("inbound", ("InboundFailure", "ConnectionClosed")), ("outbound", ("OutboundFailure", "ConnectionClosed"))):
-        fld = SETS[side]
-        its = [s for s in c.call_sites(r"IntoIterator>::into_iter$|HashSet::(drain|into_iter|iter)$") if (lambda a: a[0] == "field" and a[2] == fld)(c.site_expr(s)[2][0])]
-        ctx.floor("closed", "drain of the pending %s set" % side, its, 1, exact=True)
-        for it in its:
-            got = lib.count_range(c, [0], crets, [it.bb])
-            ctx.ob("closed", "pending %s set drained on every path" % side, got == (1, 1), it.loc(), "iteration on all paths: %s" % (got,))
-            base = c.site_expr(it)[2][0]
-            removed = any(P.call_is(x, r"(SmallVec|Vec)::(remove|swap_remove)$") for x in mir.walk(base))
-            for x in mir.walk(base):
-                if x[0] == "closure" and prog.closure_body(c, x[1]).call_sites(r"(SmallVec|Vec)::(remove|swap_remove)$"):
-                    removed = True
-            ctx.ob("closed", "pending %s set: the drained connection was removed from `connected`" % side, removed, it.loc(),
-                   "the set belongs to the value returned by connections.remove(position)")
-            lp = loop_of(c, it)
-            if lp is None:
-                ctx.ob("closed", "pending %s set: loop found" % side, False, it.loc(), "for-loop over the set not recognised")
-                continue
-            inloop = [(s, o) for s, o in cp if s.bb in c.reachable([lp[1]], stop_nodes=[lp[0].bb])]
-            ctx.ob("closed", "pending %s set -> %s::%s" % (side, want[0], want[1]), [o[:2] for _, o in inloop] == [want], lp[0].loc(), str([o[:2] for _, o in inloop]))
-            per_element(ctx, "closed", "pending %s set: one failure per pending id" % side, c, lp, lib.bbs([s for s, _ in inloop]), "ConnectionClosed failure")
-            for s, o in inloop:
-                ctx.ob("closed", "pending %s set: failure carries the drained id" % side, o[2] == elem_of(c, CN, lp), s.loc(), str(o[2]))
-                ctx.ob("closed", "pending %s set: failure carries the closed peer/connection" % side, (o[3].get("peer"), o[3].get("connection_id")) == ("$2.peer_id", "$2.connection_id"), s.loc(), str(o[3]))
+    cviews = P.views(prog, c)
+    cp_all = []
+    drains = {"inbound": [], "outbound": []}
+    for B, vsite, vargs in cviews:
+        BN = P.Norm(B)
+        is_m = B.names.get(1) == "self"
+        bcp = queue_pushes(B, BN, Q)
+        cp_all += [(B, x) for x in bcp]
+        for side, want in (("inbound", ("InboundFailure", "ConnectionClosed")), ("outbound", ("OutboundFailure", "ConnectionClosed"))):
+            fld = SETS[side]
+            for it in [s for s in B.call_sites(r"IntoIterator>::into_iter$|HashSet::(drain|into_iter|iter)$") if (lambda a: a[0] == "field" and a[2] == fld)(B.site_expr(s)[2][0])]:
+                drains[side].append(it)
+                where = "" if vsite is None else " (in helper %s)" % B.short.split("::")[-1]
+                got = lib.count_range(B, [0], B.return_blocks(), [it.bb])
+                gcall = lib.count_range(c, [0], crets, [vsite.bb]) if vsite is not None else (1, 1)
+                ctx.ob("closed", "pending %s set drained on every path" % side, got == (1, 1) and gcall == (1, 1), it.loc(), "iteration on all paths: %s%s, helper called on all paths: %s" % (got, where, gcall))
+                # the connection whose set is drained, in on_connection_closed's terms
+                base = B.site_expr(it)[2][0][1]
+                if vsite is not None and base[0] == "arg":
+                    base = c.site_expr(vsite)[2][base[1] - 1]
+                    holder = c
+                else:
+                    holder = B
+                removed = any(P.call_is(x, r"(SmallVec|Vec)::(remove|swap_remove)$") for x in mir.walk(base))
+                for x in mir.walk(base):
+                    if x[0] == "closure" and prog.closure_body(holder, x[1]).call_sites(r"(SmallVec|Vec)::(remove|swap_remove)$"):
+                        removed = True
+                ctx.ob("closed", "pending %s set: the drained connection was removed from `connected`" % side, removed and holder is c, it.loc(),
+                       "the set belongs to the value returned by connections.remove(position)")
+                lp = loop_of(B, it)
+                if lp is None:
+                    ctx.ob("closed", "pending %s set: loop found" % side, False, it.loc(), "for-loop over the set not recognised")
+                    continue
+                inloop = [(s, o) for s, o in bcp if s.bb in B.reachable([lp[1]], stop_nodes=[lp[0].bb])]
+                ctx.ob("closed", "pending %s set -> %s::%s" % (side, want[0], want[1]), [o[:2] for _, o in inloop] == [want], lp[0].loc(), str([o[:2] for _, o in inloop]))
+                per_element(ctx, "closed", "pending %s set: one failure per pending id" % side, B, lp, lib.bbs([s for s, _ in inloop]), "ConnectionClosed failure")
+                for s, o in inloop:
+                    ctx.ob("closed", "pending %s set: failure carries the drained id" % side, o[2] == elem_of(B, BN, lp), s.loc(), str(o[2]))
+                    pc = (P.to_caller(o[3].get("peer"), is_m, vargs), P.to_caller(o[3].get("connection_id"), is_m, vargs))
+                    ctx.ob("closed", "pending %s set: failure carries the closed peer/connection" % side, pc == ("$2.peer_id", "$2.connection_id"), s.loc(), str(pc))
+    ctx.floor("closed", "outcome pushes on connection close", cp_all, 2, exact=True)
+    for side in ("inbound", "outbound"):
+        ctx.floor("closed", "drain of the pending %s set" % side, drains[side], 1, exact=True)
     pos = c.call_sites(r"Iterator>::position$|Iterator::position$")
     ok = False
     for s in pos:
@@ -344,7 +396,7 @@ def _check(ctx, prog):
     ctx.ob("closed", "the removed connection is the closed one (c.id == connection_id)", ok, pos[0].loc() if pos else "", "position(|c| c.id == connection_id)")
 
     # ================================================================= on_dial_failure(self, failure = $2)
-    d = ctx.body(RR, r"^libp2p_request_response::Behaviour::on_dial_failure$")
+    d = ctx.use(P.fn_in_arm(prog, osw, is_ev, "DialFailure"))
     DN = P.Norm(d)
     dp = queue_pushes(d, DN, Q)
     ctx.floor("dial-failure", "outcome pushes in on_dial_failure", dp, 1, exact=True)
@@ -387,7 +439,14 @@ def _check(ctx, prog):
                "the function can return without draining the peer's queued requests on a dial error other than DialPeerConditionFalse: those requests never get an outcome")
 
     # ================================================================= preload_new_handler(self, handler = $2, peer = $3, connection_id = $4, remote_address = $5)
-    p = ctx.body(RR, r"^libp2p_request_response::Behaviour::preload_new_handler$")
+    hei = ctx.body(RR, r"<Behaviour as libp2p_swarm::NetworkBehaviour>::handle_established_inbound_connection$")
+    hcal = {cb.npath: cb for _, cb in P.crate_callees(prog, hei)}
+    pre = [cb for cb in hcal.values() if cb.names.get(1) == "self"]
+    ctor = [cb for cb in hcal.values() if cb.names.get(1) != "self"]
+    if len(pre) != 1 or len(ctor) != 1:
+        raise mir.RuleError("handle_established_inbound_connection: expected one handler constructor and one preload method, found %s" % sorted(hcal))
+    p = ctx.use(pre[0])
+    hnew = ctx.use(ctor[0])
     PN = P.Norm(p, ids=True)
     prets = p.return_blocks()
     rm = [s for s in p.call_sites(r"HashMap::remove$") if PN.site(s) == "std::collections::HashMap::remove(%s, $3)" % PENDREQ]
@@ -423,14 +482,20 @@ def _check(ctx, prog):
              "smallvec::SmallVec::push(std::collections::hash_map::Entry::or_default(std::collections::HashMap::entry(%s, $3)), %%%s)" % (CONNECTED, CL)]
     got = lib.count_range(p, [0], prets, lib.bbs(cpush))
     ctx.ob("preload", "the connection (with its pending set) is registered on every path", got == (1, 1), cpush[0].loc() if cpush else "", "connected.entry(peer).or_default().push(connection): %s" % (got,))
-    callers = prog.callers(RR, r"Behaviour::preload_new_handler$")
+    callers = prog.callers(RR, "^" + re.escape(p.npath) + "$")
     ctx.floor("preload", "callers of preload_new_handler", callers, 2)
     for s in callers:
         got = lib.count_range(s.body, [0], s.body.return_blocks(), [s.bb])
         ctx.ob("preload", "%s preloads the new handler exactly once" % s.body.short.split("::")[-1], got == (1, 1), s.loc(), str(got))
 
     # ================================================================= try_send_request(self, peer = $2, request = $3)
-    t = ctx.body(RR, r"^libp2p_request_response::Behaviour::try_send_request$")
+    sr = ctx.body(RR, r"^libp2p_request_response::Behaviour::send_request_with_addresses$")
+    scal = {cb.npath: cb for _, cb in P.crate_callees(prog, sr)}
+    nbs = [cb for cb in scal.values() if cb.field_write_sites(F_NEXTOUT)]
+    tss = [cb for cb in scal.values() if not cb.field_write_sites(F_NEXTOUT) and cb.names.get(1) == "self"]
+    if len(nbs) != 1 or len(tss) != 1:
+        raise mir.RuleError("send_request_with_addresses: id accessor / send helper not identified among %s" % sorted(scal))
+    nb, t = ctx.use(nbs[0]), ctx.use(tss[0])
     TN = P.Norm(t)
     ins = [s for s in t.call_sites(r"HashSet::insert$") if (lambda a: a[0] == "field" and a[2] == SETS["outbound"])(t.site_expr(s)[2][0])]
     note = [s for s in t.call_sites(r"VecDeque::push_back$") if TN.r(t.site_expr(s)[2][0]) == Q and [x for x in mir.walk(t.site_expr(s)[2][1]) if x[0] == "agg" and x[3] == "NotifyHandler"]]
@@ -461,11 +526,9 @@ def _check(ctx, prog):
             ctx.ob("try-send", "the notified handler is the connection that tracks the id", f.get("handler") == "libp2p_swarm::NotifyHandler::One{0: %s.%s}" % (conn, C_ID) and f.get("event") == "$3" and f.get("peer_id") == "$2", n_.loc(), str(f)[-160:])
         ctx.ob("try-send", "connection belongs to the target peer", "std::collections::HashMap::get_mut(%s, $2)@+" % CONNECTED in conn, s.loc(), conn[:100])
     # ================================================================= send_request_with_addresses(self, peer = $2, request = $3, addresses = $4)
-    sr = ctx.body(RR, r"^libp2p_request_response::Behaviour::send_request_with_addresses$")
     SN = P.Norm(sr)
     srets = sr.return_blocks()
-    ts = sr.call_sites(r"Behaviour::try_send_request$")
-    nb = ctx.body(RR, r"^libp2p_request_response::Behaviour::next_outbound_request_id$")
+    ts = sr.call_sites("^" + re.escape(t.npath) + "$")
     nid = sr.call_sites("^" + re.escape(nb.npath) + "$")
     ctx.floor("send", "try_send_request call", ts, 1, exact=True)
     got = lib.count_range(sr, [0], srets, lib.bbs(nid))
@@ -524,14 +587,13 @@ def _check(ctx, prog):
            re.search(r"\{0: std::sync::atomic::Atomic(U64)?::fetch_add\((<std::sync::Arc as std::ops::Deref>::deref\()?self\.%s\)?, 1, " % re.escape(H_INID), ibs[0]) is not None,
            ib[0].loc() if ib else "", str([x[-120:] for x in ibs]))
     fresh_in = ib[0].body if ib else None
-    hnew = ctx.body(RR, r"^libp2p_request_response::handler::Handler::new$")
     hag = [x for _, e in P.ret_exprs(hnew) for x in mir.walk(e) if x[0] == "agg" and x[1] == "adt" and strip_generics(x[2]) == "libp2p_request_response::handler::Handler"]
     idx = None
     if len(hag) == 1:
         v = dict(hag[0][4]).get(H_INID)
         idx = v[1] if v is not None and v[0] == "arg" else None
     ctx.ob("ids", "Handler stores the shared counter", idx is not None, msg="constructor argument #%s" % idx)
-    hn = prog.callers(RR, r"handler::Handler::new$")
+    hn = prog.callers(RR, "^" + re.escape(hnew.npath) + "$")
     ctx.floor("ids", "Handler::new call sites", hn, 2)
     for s in hn:
         a = P.nr(s.body, s.body.site_expr(s)[2][idx - 1]) if idx else "?"
@@ -609,7 +671,8 @@ def _check(ctx, prog):
     ctx.ob("handler-poll", "on_behaviour_event queues the request once", lib.count_range(obev, [0], obev.return_blocks(), lib.bbs(pb)) == (1, 1), "%s:%d" % (obev.file, obev.line), "pending_outbound.push_back(request)")
 
     # ================================================================= dial upgrade error / try_push failure
-    de = ctx.body(RR, r"^libp2p_request_response::handler::Handler::on_dial_upgrade_error$")
+    oce = ctx.body(RR, r"<handler::Handler as libp2p_swarm::ConnectionHandler>::on_connection_event$")
+    de = ctx.use(P.fn_in_arm(prog, oce, is_ev, "DialUpgradeError"))
     DE = P.Norm(de)
     POPPED = "std::collections::VecDeque::pop_front(%s)@+" % H_REQ
     pops = [s for s in de.call_sites(r"VecDeque::pop_front$") if DE.r(de.site_expr(s)[2][0]) == H_REQ]
@@ -629,7 +692,7 @@ def _check(ctx, prog):
         ctx.ob("dial-upgrade-error", "%s -> %s" % (arm, evn), got == (1, 1) and gall == (1, 1), right[0].loc() if right else "", "%s pushes %s, all pushes %s" % (evn, got, gall))
         for s, o in mine:
             ctx.ob("dial-upgrade-error", "%s: event carries the popped request's id" % arm, o[2] == POPPED + "." + M_ID, s.loc(), str(o[2])[-60:])
-    fo = ctx.body(RR, r"^libp2p_request_response::handler::Handler::on_fully_negotiated_outbound$")
+    fo = ctx.use(P.fn_in_arm(prog, oce, is_ev, "FullyNegotiatedOutbound"))
     FO = P.Norm(fo)
     forets = fo.return_blocks()
     pops = [s for s in fo.call_sites(r"VecDeque::pop_front$") if FO.r(fo.site_expr(s)[2][0]) == H_REQ]
@@ -666,7 +729,7 @@ def _check(ctx, prog):
     for s, o in fpush:
         ctx.ob("negotiated-outbound", "failure carries the popped request's id", o[2] == POPPED + "." + M_ID, s.loc(), str(o[2])[-60:])
     # inbound worker
-    fi = ctx.body(RR, r"^libp2p_request_response::handler::Handler::on_fully_negotiated_inbound$")
+    fi = ctx.use(P.fn_in_arm(prog, oce, is_ev, "FullyNegotiatedInbound"))
     FI = P.Norm(fi)
     tp = [s for s in fi.call_sites(r"FuturesMap::try_push$") if FI.r(fi.site_expr(s)[2][0]) == H_WORK]
     ctx.floor("negotiated-inbound", "worker_streams.try_push", tp, 1, exact=True)
